@@ -10,6 +10,11 @@
 
 #include "mp/nl-writer2.h"
 #include "mp/nl-writer2.hpp"
+extern "C" {
+#include "api/c/nl-feeder-c.h"
+#include "api/c/nl-solver-c.h"
+#include "api/c/nl-writer2-misc-c.h"
+}
 
 #include "io_common.h"
 #include "nlgen.h"
@@ -198,6 +203,84 @@ class IrFeeder : public mp::NLFeeder<IrFeeder, const Ex*> {
     }
   }
 };
+
+
+// ------------------------------------------------------------------ third writer party: a C callback table
+// The same hand-off through the C flavour of the feeder interface (NLW2_NLFeeder_C, adapted to the
+// writer by api/c/nl-feeder-c-impl.h and entered through NLW2_LoadNLFeed2_C as a C client does).
+// The C interface has no expression callbacks, so this party feeds the linear shadow of the model:
+// same variables, bounds, ranges / complementarity, linear parts, initial values and suffixes;
+// every nonlinear part is the constant 0, logical constraints / defined variables / functions are gone.
+Model linear_shadow(const Model& m) {
+  Model s = m;
+  s.lcons.clear(); s.cexprs.clear(); s.funcs.clear();
+  for (int& c : s.cexpr_split) c = 0;
+  for (auto& c : s.cons) c.e = Ex();
+  for (auto& o : s.objs) o.e = Ex();
+  s.nlvb = s.nlvc = s.nlvo = s.nlvbi = s.nlvci = s.nlvoi = 0;
+  const int nc = (int)s.cons.size();
+  for (auto& sf : s.sufs)
+    if ((sf.kind & 3) == 1) {
+      std::vector<std::pair<int, double>> keep;
+      for (auto& p : sf.vals) if (p.first < nc) keep.push_back(p);
+      sf.vals.swap(keep);
+    }
+  std::vector<std::pair<int, double>> d;
+  for (auto& p : s.d0) if (p.first < nc) d.push_back(p);
+  s.d0.swap(d);
+  return s;
+}
+
+struct CUser { const Model* m; WriterOpts w; };
+const Model& cm_of(void* u) { return *static_cast<CUser*>(u)->m; }
+extern "C" {
+static NLHeader_C c_header(void* u) {
+  CUser* cu = static_cast<CUser*>(u);
+  mp::NLHeader h = make_header(*cu->m, cu->w);
+  NLHeader_C hc;
+  hc.pi = static_cast<const NLProblemInfo_C&>(h);
+  hc.nli = static_cast<const NLInfo_C&>(h);
+  return hc;
+}
+static const char* c_objdescr(void*, int) { return "obj descr"; }
+static int c_objtype(void* u, int i) { return cm_of(u).objs[(size_t)i].type; }
+static int c_objnnz(void* u, int i) { return (int)cm_of(u).objs[(size_t)i].lin.size(); }
+static void c_objgrad(void* u, int i, void* api) { for (auto& t : cm_of(u).objs[(size_t)i].lin) NLW2_WriteSparseDblEntry(api, t.var, t.coef); }
+static void c_varbounds(void* u, void* api) { for (auto& b : cm_of(u).vbounds) NLW2_WriteVarLbUb(api, b.lb, b.ub); }
+static void c_conbounds(void* u, void* api) {
+  for (auto& c : cm_of(u).cons) {
+    NLW2_AlgConRange_C r;
+    // as the documented skeleton does: either {k, cvar} or {L, U}; the other pair keeps a neutral value
+    r.L = 0; r.U = 0; r.k = 0; r.cvar = 0;
+    if (c.b.kind == 5) { r.k = c.b.cflags; r.cvar = c.b.cvar - 1; }
+    else { r.L = c.b.lb; r.U = c.b.ub; }
+    NLW2_WriteAlgConRange(api, &r);
+  }
+}
+static const char* c_condescr(void*, int) { return "con descr"; }
+static int c_connnz(void* u, int i) { return (int)cm_of(u).cons[(size_t)i].lin.size(); }
+static void c_conlin(void* u, int i, void* api) { for (auto& t : cm_of(u).cons[(size_t)i].lin) NLW2_WriteSparseDblEntry(api, t.var, t.coef); }
+static void c_colsizes(void* u, void* api) {
+  const Model& m = cm_of(u);
+  std::vector<int> cs = m.colsizes();
+  for (int i = 0; i + 1 < m.nvars; ++i) NLW2_WriteColSize(api, cs[(size_t)i]);
+}
+static int c_x0nnz(void* u) { return (int)cm_of(u).x0.size(); }
+static void c_x0(void* u, void* api) { for (auto& p : cm_of(u).x0) NLW2_WriteSparseDblEntry(api, p.first, p.second); }
+static int c_d0nnz(void* u) { return (int)cm_of(u).d0.size(); }
+static void c_d0(void* u, void* api) { for (auto& p : cm_of(u).d0) NLW2_WriteSparseDblEntry(api, p.first, p.second); }
+static void c_sufs(void* u, void* api) {
+  for (auto& s : cm_of(u).sufs) {
+    if (s.real) {
+      void* sw = NLW2_StartDblSuffix(api, s.name.c_str(), s.kind | 4, (int)s.vals.size());
+      for (auto& p : s.vals) NLW2_WriteSparseDblEntry(sw, p.first, p.second);
+    } else {
+      void* sw = NLW2_StartIntSuffix(api, s.name.c_str(), s.kind, (int)s.vals.size());
+      for (auto& p : s.vals) NLW2_WriteSparseIntEntry(sw, p.first, (int)p.second);
+    }
+  }
+}
+}  // extern "C"
 
 // ------------------------------------------------------------------ feed history (expected items)
 struct Expect {
@@ -493,6 +576,73 @@ sim::RunResult run(const Json& sc) {
       if (!ex.items.count(kv.first)) { v.set("ITEM_PHANTOM", item_kind(kv.first) + "/" + enc, "reader notified item " + kv.first + " = [" + kv.second.substr(0, 200) + "] that was never fed"); break; }
     bump(st, "items_compared", (long)ex.items.size());
   }
+
+  // ---------------- third writer party: C callback table over the linear shadow (no writer options: the C adapter fixes them)
+  if (!sc.has("c_feeder") || sc["c_feeder"].as_bool(true)) {
+    const Model ms = linear_shadow(m);
+    WriterOpts wc;
+    for (int pass = 0; pass < 2; ++pass) {
+      wc.binary = pass == 1;
+      const std::string enc = wc.binary ? "c-feeder-binary" : "c-feeder-text";
+      const std::string base = sim::scratch_dir() + (wc.binary ? "cb" : "ct");
+      CUser cu{&ms, wc};
+      int rc = 0; std::string werr, wexc;
+      SimRun sw = sim_session(nofaults, 500000, [&] {
+        try {
+          NLW2_NLFeeder_C f = NLW2_MakeNLFeeder_C_Default();
+          f.p_user_data_ = &cu;
+          f.Header = c_header;
+          f.ObjDescription = c_objdescr; f.ObjType = c_objtype; f.ObjGradientNNZ = c_objnnz; f.FeedObjGradient = c_objgrad;
+          f.FeedVarBounds = c_varbounds; f.FeedConBounds = c_conbounds;
+          f.ConDescription = c_condescr; f.LinearConExprNNZ = c_connnz; f.FeedLinearConExpr = c_conlin;
+          f.FeedColumnSizes = c_colsizes;
+          f.InitialGuessesNNZ = c_x0nnz; f.FeedInitialGuesses = c_x0;
+          f.InitialDualGuessesNNZ = c_d0nnz; f.FeedInitialDualGuesses = c_d0;
+          f.FeedSuffixes = c_sufs;
+          NLW2_NLUtils_C u = NLW2_MakeNLUtils_C_Default();
+          NLW2_NLSolver_C cs = NLW2_MakeNLSolver_C(&u);
+          NLW2_SetFileStub_C(&cs, base.c_str());
+          rc = NLW2_LoadNLFeed2_C(&cs, &f);
+          if (!rc) { const char* e = NLW2_GetErrorMessage_C(&cs); werr = e ? e : ""; }
+          NLW2_DestroyNLSolver_C(&cs);
+          NLW2_DestroyNLUtils_C_Default(&u);
+          NLW2_DestroyNLFeeder_C_Default(&f);
+        } catch (const std::exception& e) { wexc = e.what(); }
+      });
+      if (sw.exited) { v.set("HANG", "writer/" + enc, "NL writer (C feeder) did not return"); continue; }
+      if (!wexc.empty()) { v.set("WRITER_FAILED", "exception/" + enc, "NLW2_LoadNLFeed2_C threw: " + wexc); continue; }
+      if (!rc) { v.set("WRITER_FAILED", "rc/" + enc, "NLW2_LoadNLFeed2_C returned 0: " + werr); continue; }
+      std::string bytes;
+      sim::read_file(base + ".nl", bytes);
+      fp = sim::fnv1a(bytes, fp);
+      ReadOpts ro; ro.flags = 0; ro.handler = H_CHECK; ro.want_items = true; ro.norm_zero = true; ro.only_obj = -1;
+      ReadOutcome out;
+      SimRun sr = sim_session(nofaults, 500000, [&] { out = read_nl_file(base + ".nl", ro); });
+      if (sr.exited) { v.set("HANG", "reader/" + enc, "NL reader did not return"); continue; }
+      fp = sim::fnv1a(out.outcome_key(), fp); fp = sim::fnv1a(&out.trace_hash, 8, fp);
+      if (out.status != "ok") { v.set("READ_FAILED", out.status + "/" + enc, enc + " file rejected by the reader: " + out.status + ": " + out.msg); continue; }
+      if (!out.viol_class.empty()) v.set(out.viol_class, out.viol_key, "recording checker on " + enc + " output: " + out.viol_detail);
+      Expect ex(ms);
+      mp::NLHeader hx = make_header(ms, wc);
+      ex.build(hx, wc);
+      for (auto& kv : ex.items) {
+        auto it = out.items.find(kv.first);
+        if (it == out.items.end()) { v.set("ITEM_MISSING", item_kind(kv.first) + "/" + enc, "fed item " + kv.first + " = [" + kv.second.substr(0, 200) + "] never notified by the reader (" + enc + ")"); break; }
+        if (it->second != kv.second) {
+          size_t p = 0;
+          while (p < kv.second.size() && p < it->second.size() && kv.second[p] == it->second[p]) ++p;
+          size_t from = p > 30 ? p - 30 : 0;
+          v.set("ITEM_MISMATCH", item_kind(kv.first) + "/" + enc, enc + " item " + kv.first + ": fed [..." + kv.second.substr(from, 120) + "] read [..." + it->second.substr(from, 120) + "]");
+          break;
+        }
+      }
+      for (auto& kv : out.items)
+        if (!ex.items.count(kv.first)) { v.set("ITEM_PHANTOM", item_kind(kv.first) + "/" + enc, "reader notified item " + kv.first + " = [" + kv.second.substr(0, 200) + "] that was never fed"); break; }
+      bump(st, "c_feeder.items_compared", (long)ex.items.size());
+      bump(st, "c_feeder.roundtrips");
+      for (auto& c : ms.cons) if (c.b.kind == 5) { bump(st, c.b.cvar == 1 ? "c_feeder.compl_first_var" : "c_feeder.compl_other_var"); }
+    }
+  }
   if (ok[0] && ok[1] && got[0] != got[1]) {
     std::string k;
     for (auto& kv : got[0]) { auto it = got[1].find(kv.first); if (it == got[1].end() || it->second != kv.second) { k = kv.first; break; } }
@@ -511,6 +661,7 @@ sim::RunResult run(const Json& sc) {
 Json describe() {
   Json d = Json::object();
   d.set("writer", "real NLW2 writer (mp::WriteNLFile, text and binary formatters) fed through an NLFeeder adaptor over the model IR");
+  d.set("writer_c", "real NLW2 C adapter (NLW2_NLFeeder_C callback table -> NLW2_LoadNLFeed2_C) fed the linear shadow of the same model, text and binary");
   d.set("reader", "real mp::ReadNLFile with the recording checker (per-item history)");
   return d;
 }
